@@ -2562,7 +2562,8 @@ impl Formatter {
   pub fn dot_int(&mut self, node: &RealNumber) -> String {
     let node_str = match node {
       RealNumber::Integer(tkn) => tkn.to_string(),
-      _ => "".to_string(),
+      // the parser also accepts a suffixed integer here (`x.5u8`)
+      other => self.real_number(other),
     };
     if self.html {
       format!(".<span class=\"mech-dot-int\">{}</span>",node_str)
